@@ -34,6 +34,9 @@ RULE = ("case = a grid cell (format in A/AP/PM/{'action'}/{'action_prob'}/{'pmf'
         "per-row answer has two elements, or the batch is square (batch size == answer width), or the actions contain 0/1; "
         "distinct = distinct canonical JSON of the case")
 ASSUMPTIONS = [
+    "action sets have no duplicates, except (DUPLICATE_MEMBERS) PMF cells over list / sparse-dict actions, which sometimes offer two equal members as distinct objects: the reported probability must then be the mass at the drawn position when the returned object identifies it, and otherwise the non-zero mass of some equal member",
+    "string actions include two-character members whose first character is an offered action as well; per-row kwargs of one row-major batch share their keys but not their insertion order",
+    "evaluator sub-check: learn modes on / ips / off / None on simulated+logged interactions (dr and dm need VowpalWabbit); learn must receive the played action, the learner's probability and its kwargs (on, ips) or the logged triple without kwargs (off)",
     "PMFs are the uniform one, sixteenths, weights normalised once (sum 1 only up to rounding) or masses rounded to four decimals (sum within SafeLearner's own acceptance tolerance of .001, checked in possible_pmf); the reported probability must equal the stated mass bit for bit in all of them",
     "batched calls without contexts pass context=None for the whole batch (what the evaluators do for environments without 'context'); the double then gives every row the same answer, since it cannot tell rows apart",
     "while HINTED_COL_KWARGS_DICT_ONLY is set (open defect, proposed_fixes/C15/0003) the column-major dict-hinted layout is only generated with dict/OrderedDict kwargs; every other layout gets all five Mapping types",
@@ -75,6 +78,11 @@ class UserMapping(abc.Mapping):
 
 KWTYPES = ["dict", "mappingproxy", "chainmap", "ordereddict", "usermapping"]
 
+# PMF cells over list/sparse actions sometimes offer two equal members (distinct objects). DESIGN section 4 keeps duplicates out of
+# action *sets*; they are generated here only for PMF answers, where the position - not the value - carries the mass. Set to False
+# to restore the duplicate-free domain.
+DUPLICATE_MEMBERS = True
+
 # Open defect (proposed_fixes/C15/0003-*.patch): the column-major pair [{hint: column}, kwargs] is only recognised when the
 # kwargs are a dict (subclass). Until that patch is applied the doubles answer that one layout with dict/OrderedDict kwargs
 # only; set this to False afterwards (the check is then quiet on the patched tree and fires on the unpatched one).
@@ -93,7 +101,7 @@ POOL = {
     "int01":   [0, 1, 2, 3, 5],
     "int":     [2, 3, 5, 7, -4, 10],
     "float01": [0.25, 0.5, 0.75, 0.0, 1.0, 0.125],
-    "str":     ["a", "b", "ab", "cd", "xyz", "p1"],
+    "str":     ["N", "NE", "E", "ES", "S", "SN", "xyz"],    # 'NE'[0] is the offered action 'N' ...
     "tuple":   [(0.5, 0.5), (0.25, 0.75), (1.0, 2.0, 3.0), (0.5, 0.25, 0.25), (2, 7), (0.0, 1.0)],
     "list":    [[1, 0, 0], [0, 1, 0], [0.5, 0.5], [1, 0], [0.25, 0.25, 0.5], [3, 4]],
     "sparse":  [{"a": 1}, {"b": 2, "c": 1}, {"a": 1, "b": 0.5}, {0: 1.0}, {"pm": 1, "q": 2, "r": 3}, {"x": 0.5, "y": 0.5}],
@@ -190,7 +198,14 @@ def build(case):
             for row in call:
                 for k in ("choice", "p", "pmf", "kw"): row[k] = copy.deepcopy(first[k])
     seed = 1 + nx(1000)
-    return {"calls": calls, "seed": seed, "ctxkind": ctxkind, "kwtype": KWTYPES[nx(len(KWTYPES))], "batch_only": nx(2) == 1}
+    plan = {"calls": calls, "seed": seed, "ctxkind": ctxkind, "kwtype": KWTYPES[nx(len(KWTYPES))], "batch_only": nx(2) == 1}
+    if DUPLICATE_MEMBERS and fmt in ("PM", "hPM") and n >= 2 and atype in ("list", "sparse") and nx(3) == 0:
+        # an action list holding two EQUAL members (distinct objects, see drive): a PMF gives each position its own mass
+        plan["duplicates"] = True
+        for call in calls:
+            for row in call:
+                acts = list(row["actions"]); acts[1] = copy.deepcopy(acts[0]); row["actions"] = acts
+    return plan
 
 # ----------------------------------------------------------------------------------------- which answers need hints
 def forced_hint(fmt, atype, n, actions):
@@ -272,8 +287,9 @@ class FmtLearner:
             if has_kw: return body + [kwcol]
             return body[0] if len(body) == 1 else body
         out = []
-        for fmt, a, p, pmf, kw in pieces:
+        for r, (fmt, a, p, pmf, kw) in enumerate(pieces):
             core = {"A": a, "AP": (a, p), "PM": pmf, "hA": {"action": a}, "hAP": {"action_prob": (a, p)}, "hPM": {"pmf": pmf}}[fmt]
+            if kw is not None and r % 2 == 1: kw = dict(reversed(list(kw.items())))     # same keys, another insertion order
             if kw is not None: kw = as_mapping(self.kwtype, kw)
             if kw is None: out.append(core)
             elif fmt == "AP": out.append((a, p, kw))
@@ -329,7 +345,7 @@ def drive(case, plan, batch_ok, seed, shape=None, wrap=None):
     safe = SafeLearner(wrapped(learner, cell, plan, wrap) if wrap else learner, seed)
     out = []
     for ci, call in enumerate(plan["calls"]):
-        acts = [copy.deepcopy(r["actions"]) for r in call]
+        acts = [[copy.deepcopy(a) for a in r["actions"]] for r in call]      # every member its own object, equal members included
         ctxs = [copy.deepcopy(r["ctx"]) for r in call]
         rwds = [r["reward"] for r in call]
         if cell["shape"] == "single":
@@ -360,10 +376,14 @@ def check_rows(case, rows, learner):
         where = dict(cell=cell, call=rec["call"], row=rec["row"], offered=offered)
         require(any(eq(a, o) for o in offered), "the action handed to the evaluator is not one of the offered actions", got=a, **where)
         if fmt in ("PM", "hPM"):
-            idx = [i for i, o in enumerate(offered) if eq(a, o)][0]
-            mass = plan["pmf"][idx]
-            require(mass > 0, "an action of zero mass was drawn from the PMF", got=a, pmf=plan["pmf"], **where)
-            require(p is not None and eq(p, mass), "the reported probability is not the PMF's mass of the drawn action", got=p, mass=mass, action=a, pmf=plan["pmf"], **where)
+            same = [i for i, o in enumerate(offered) if a is o]
+            cand = same if len(same) == 1 else [i for i, o in enumerate(offered) if eq(a, o)]
+            # the drawn position is known when the returned object is one of the offered objects; otherwise (coba's float copies of
+            # 0/1, a cached action list) any equal member qualifies - there is exactly one unless the list holds equal members
+            masses = [plan["pmf"][i] for i in cand]
+            require(any(m > 0 for m in masses), "an action of zero mass was drawn from the PMF", got=a, pmf=plan["pmf"], **where)
+            require(p is not None and any(m > 0 and eq(p, m) for m in masses), "the reported probability is not the PMF's mass of the drawn action",
+                    got=p, mass=masses, position=cand, action=a, pmf=plan["pmf"], **where)
         else:
             want = offered[plan["choice"] % len(offered)]
             require(eq(a, want), "the action handed to the evaluator is not the one the learner named", got=a, named=want, **where)
@@ -482,7 +502,8 @@ class PlanEnv:
     def params(self):
         return {}
     def read(self):
-        its = [{"context": copy.deepcopy(r["ctx"]), "actions": copy.deepcopy(r["actions"]), "rewards": list(r["rwds"])} for r in self.rows]
+        its = [{"context": copy.deepcopy(r["ctx"]), "actions": copy.deepcopy(r["actions"]), "rewards": list(r["rwds"]),
+                "action": copy.deepcopy(r["actions"][r["log"]]), "reward": r["log_reward"], "probability": r["log_prob"]} for r in self.rows]
         return Batch(self.batch).filter(its) if self.batch else its
 
 def ev_plan(case):
@@ -491,32 +512,47 @@ def ev_plan(case):
     b = 0 if shape == "single" else cell["b"]
     nx = Ints(case["ints"])
     base = action_set(cell["atype"], n, nx)
-    rows = [{"ctx": rid, "actions": base, "choice": 0, "p": 1.0, "pmf": [1 / n] * n, "kw": None, "reward": nx(5) / 4,
-             "rwds": [((rid + j) % 3) / 2 for j in range(n)]} for rid in range(EV_ROWS)]
+    rows = [{"ctx": rid, "actions": base, "choice": 0, "p": 1.0, "pmf": [1 / n] * n, "reward": nx(5) / 4,
+             "kw": {"k": KWVALS[rid % len(KWVALS)], "m": rid} if case.get("kw") else None,
+             "rwds": [((rid + j) % 3) / 2 for j in range(n)],
+             "log": (rid * 7 + 1) % n, "log_reward": 0.5 + (rid % 4) / 2, "log_prob": [0.5, 0.25, 1.0, 0.125][rid % 4]} for rid in range(EV_ROWS)]
     calls = [rows[i:i + b] for i in range(0, len(rows), b)] if b else [[r] for r in rows]
     return rows, b, {"calls": calls, "ctxkind": "int", "batch_only": nx(2) == 1}
 
 def run_evaluator(case):
     """SequentialCB(seed=s) must hand its seed (or, for None, the experiment seed) to the PMF sampler: 'seed: Determine which
     action is played when learners return an action PMF' (SequentialCB docstring)."""
-    cell = dict(case["cell"], kw=False)
+    cell = dict(case["cell"], kw=bool(case.get("kw")))
     rows, b, plan = ev_plan(case)
     batch_ok = cell["shape"] in ("row", "col")
     s = case["seed"]
+    learn = case.get("learn", "on")
     full = {"cell": cell, "ints": case["ints"]}
     saved = dict(CobaContext.store)
 
     def evaluate(exp_seed):
         CobaContext.store.pop("experiment_seed", None)
         if exp_seed is not None: CobaContext.store["experiment_seed"] = exp_seed
-        learner = FmtLearner(cell, plan, batch_ok)
+        double = learner = FmtLearner(cell, plan, batch_ok)
         if case.get("wrap"): learner = wrapped(learner, cell, plan, case["wrap"])
-        out = list(SequentialCB(record=["action", "probability"], learn="on", eval="on", seed=s).evaluate(PlanEnv(rows, b), learner))
+        out = list(SequentialCB(record=["action", "probability"], learn=learn, eval="on", seed=s).evaluate(PlanEnv(rows, b), learner))
         require(len(out) == len(rows), "expected one row per interaction", rows=len(out), interactions=len(rows), cell=cell)
         for r, o in zip(rows, out):
             require(any(eq(o["action"], a) for a in r["actions"]) and eq(o["probability"], 1 / cell["n"]),
                     "the recorded action/probability is not a draw from the learner's PMF", row=o, offered=r["actions"], cell=cell)
-        return [[i for i, a in enumerate(r["actions"]) if eq(o["action"], a)][0] for r, o in zip(rows, out)]
+        drawn = [[i for i, a in enumerate(r["actions"]) if eq(o["action"], a)][0] for r, o in zip(rows, out)]
+        # what learn received, in every learn mode: on/ips teach the played action with the learner's own probability and kwargs,
+        # off teaches the logged action/reward/probability without kwargs, None does not teach
+        require(len(double.learned) == (len(rows) if learn else 0), "learn was not called once per interaction", learn=learn, received=len(double.learned), cell=cell)
+        for r, o, i, got in zip(rows, out, drawn, double.learned):
+            if learn == "off":
+                want = (r["ctx"], r["actions"][r["log"]], r["log_reward"], r["log_prob"], {})
+            else:
+                reward = r["rwds"][i] if learn == "on" else (r["log_reward"] / r["log_prob"] if i == r["log"] else 0)
+                want = (r["ctx"], o["action"], reward, o["probability"], r["kw"] or {})
+            ok = got[0] == want[0] and eq(got[1], want[1]) and got[2] == want[2] and got[3] == want[3] and dict(got[4]) == want[4]
+            require(ok, "learn did not receive (context, action, reward, probability, **kwargs) of its interaction", learn=learn, received=got, want=want, cell=cell)
+        return drawn
 
     def direct(seed):
         got, _ = drive(full, plan, batch_ok, seed)
@@ -552,13 +588,15 @@ def evaluator_cases(draw, tier):
     e1, e2 = draw(exps), draw(exps)
     if seed is not None and e1 == e2:
         e2 = 5 if e1 is None else e1 + 1          # different experiment seeds (or one absent) behind the same explicit seed
-    case = {"cell": cell, "ints": draw(st.lists(st.integers(0, 65535), min_size=8, max_size=8)), "seed": seed, "exp1": e1, "exp2": e2}
+    case = {"cell": cell, "ints": draw(st.lists(st.integers(0, 65535), min_size=8, max_size=8)), "seed": seed, "exp1": e1, "exp2": e2,
+            "learn": draw(st.sampled_from(["on", "ips", "off", None, "ips"])), "kw": draw(st.booleans())}
     if draw(st.booleans()):
         case["wrap"] = {"inner_seed": draw(st.integers(0, 1000)), "pre": draw(st.integers(0, 3))}
     return case
 
 def ev_classes(case):
     return [f"seed={case['seed']!r}", f"shape={case['cell']['shape']}", "learner already wrapped" if case.get("wrap") else "plain learner",
+            f"learn={case.get('learn', 'on')}", "kwargs" if case.get("kw") else "no kwargs",
             "experiment_seed:" + ("both" if case["exp1"] is not None and case["exp2"] is not None else "one absent" if (case["exp1"] is None) != (case["exp2"] is None) else "absent")]
 
 # ----------------------------------------------------------------------------------------- generators
@@ -653,5 +691,5 @@ SUBCHECKS = [
         what="40+ uniform PMF draws per case in every call shape: equal seeds (0 and 0.0 included) repeat the run, different seeds differ somewhere, the draws are not the same in every call; half of the cases also build the SafeLearner around an inner, pre-used SafeLearner with another seed and expect the same draws"),
     Sub(name="evaluator", run=run_evaluator, strategy=evaluator_cases, nontrivial=lambda c: c["seed"] is not None or c["exp1"] is not None, classes=ev_classes,
         quick=500, thorough=10000, quick_shards=1, sample_view=view,
-        what="a PMF-answering double evaluated through SequentialCB(seed=s) over 24 simulated interactions (un-batched or Batch(1..4), every call shape), s in {0, 0.0, 1, 2, 7, 1000, None} with CobaContext.store['experiment_seed'] set to generated values or absent: equal explicit seeds give equal action rows whatever the experiment seed, the rows equal the draws of SafeLearner(double, s) for the same calls, with seed=None the experiment seed decides; half of the cases hand SequentialCB an already wrapped, pre-used SafeLearner"),
+        what="a PMF-answering double evaluated through SequentialCB(seed=s) over 24 simulated interactions (un-batched or Batch(1..4), every call shape), s in {0, 0.0, 1, 2, 7, 1000, None} with CobaContext.store['experiment_seed'] set to generated values or absent: equal explicit seeds give equal action rows whatever the experiment seed, the rows equal the draws of SafeLearner(double, s) for the same calls, with seed=None the experiment seed decides; learn in on/ips/off/None with and without kwargs: learn receives the played action, probability and kwargs (or the logged triple); half of the cases hand SequentialCB an already wrapped, pre-used SafeLearner"),
 ]
